@@ -552,3 +552,318 @@ lib.BUILTIN_FUNCS.update({
     "disk_kind": c_disk_kind,
 })
 lib.VALUE_METHODS.setdefault("to_numpy", lib.m_copy)
+
+
+# ================================================================================================ sqlite3
+# Ghost model of ONE database file: a COMMITTED state (what a new connection - e.g. after a crash or a failed save -
+# sees) and the PENDING state of the open transaction.  Python's sqlite3 in its default (legacy) transaction mode:
+#   * INSERT / UPDATE / DELETE / REPLACE implicitly open a transaction; commit() publishes it, rollback() and close()
+#     discard it;
+#   * executescript() first COMMITS the pending transaction, then runs the script in autocommit mode;
+#   * PRAGMA user_version=<n> outside a transaction takes effect at once; CREATE TABLE IF NOT EXISTS keeps the rows.
+# Statements are recognised from the text of the module constant (a small SQL recogniser: PRAGMA user_version[=n],
+# CREATE TABLE IF NOT EXISTS t(...), DELETE FROM t, INSERT INTO t (cols) VALUES (?,...), SELECT cols FROM t).
+# Every statement may fail: each call forks an exceptional outcome (OperationalError) - this is the fault model of
+# "an error occurs at any point while a checkpoint is being written".
+
+import re as _re
+
+
+class TState:
+    def __init__(self, version, exists, nrows, first):
+        self.version, self.exists, self.nrows, self.first = version, exists, nrows, first
+
+    def copy(self, **kw):
+        d = dict(version=self.version, exists=self.exists, nrows=self.nrows, first=self.first)
+        d.update(kw)
+        return TState(**d)
+
+
+class DB:
+    def __init__(self, committed, pending=None):
+        self.committed, self.pending = committed, pending
+
+    def visible(self):
+        return self.pending if self.pending is not None else self.committed
+
+
+SQL_LEAF_SCHEMA: dict = {}
+
+
+def _initial_db(disk, leaf, I, st):
+    sch = SCHEMA.get(leaf)
+    if sch is None:
+        raise Unsupported(f"no disk schema declared for database {leaf}")
+    tag = f"{disk.tag}.{leaf}"
+    n = z3.Int(tag + ".nrows")
+    st.fact(n >= 0)
+    first = {col: _typed_fresh(I, st, t, f"{tag}.{col}") for col, t in sch.items()}
+    return ("sqlite", DB(TState(z3.Int(tag + ".user_version"), z3.Bool(tag + ".table_exists"), n, first)))
+
+
+def _db(I, st, leaf) -> DB:
+    d = get_disk(I, st)
+    if leaf in d.files:
+        return d.files[leaf][1]
+    k = ("content", leaf, "sqlite")
+    if k not in d.init:
+        nf = len(st.facts)
+        d.init[k] = _initial_db(d, leaf, I, st)
+        d.init[("facts", leaf, "sqlite")] = list(st.facts[nf:])
+    else:
+        have = {g.get_id() for g in st.facts if is_z3(g)}
+        for f in d.init.get(("facts", leaf, "sqlite"), []):
+            if not (is_z3(f) and f.get_id() in have):
+                st.fact(f)
+    return d.init[k][1]
+
+
+def _set_db(I, st, leaf, db):
+    set_disk(st, get_disk(I, st).put(leaf, ("sqlite", db)))
+
+
+def sqlite_connect(I, st, args, kw, node):
+    used("sqlite3 (legacy transaction mode): DML opens a transaction, commit publishes, rollback / close discard, "
+         "executescript commits first and runs in autocommit, PRAGMA user_version=n is immediate; registered ndarray "
+         "adapters / converters and TEXT / INTEGER / BLOB columns hand back what was stored; every statement may fail")
+    leaf = _leaf_of(args[0])
+    if leaf is None:
+        raise Unsupported("sqlite3.connect of an unnamed file")
+    c = Opaque(z3.Const(fresh_name("conn"), ObjS), "SqlConnection")
+    c._leaf = leaf   # type: ignore[attr-defined]
+    _db(I, st, leaf)
+    return c
+
+
+def conn_cursor(I, st, recv, args, kw, node):
+    cur = Opaque(z3.Const(fresh_name("cursor"), ObjS), "SqlCursor")
+    cur._leaf, cur._row = recv._leaf, None   # type: ignore[attr-defined]
+    return cur
+
+
+def _sql_text(v):
+    if isinstance(v, VStr) and v.text is not None:
+        return " ".join(_re.sub(r"--[^\n]*", " ", v.text).split())
+    raise Unsupported("SQL statement that is not a string constant")
+
+
+def _fail(st):
+    s2 = st.fork()
+    return (s2, None, lib.Exc("OperationalError", ()))
+
+
+def _begin(db: DB) -> TState:
+    return db.pending if db.pending is not None else db.committed.copy()
+
+
+def cur_execute(I, st, recv, args, kw, node, script=False):
+    sql = _sql_text(args[0])
+    params = args[1] if len(args) > 1 else None
+    leaf = recv._leaf
+    outs = [_fail(st)]          # the statement fails: nothing changed by it
+    db = _db(I, st, leaf)
+    up = sql.upper()
+    res = Opaque(z3.Const(fresh_name("cursor"), ObjS), "SqlCursor")
+    res._leaf, res._row = leaf, None   # type: ignore[attr-defined]
+    if script:
+        # executescript: COMMIT first, then autocommit
+        base = db.visible()
+        db = DB(base, None)
+        if _db(I, st, leaf).pending is not None:
+            # ... and it may fail after that implicit commit
+            s_mid = st.fork()
+            _set_db(I, s_mid, leaf, db)
+            outs.append((s_mid, None, lib.Exc("OperationalError", ())))
+        stmts = [x.strip() for x in sql.split(";") if x.strip()]
+    else:
+        stmts = [sql.rstrip(";").strip()]
+    for stmt in stmts:
+        u = stmt.upper()
+        m = _re.fullmatch(r"PRAGMA USER_VERSION\s*=\s*(\d+)", u)
+        if m:
+            if db.pending is not None:
+                db = DB(db.committed, db.pending.copy(version=int(m.group(1))))
+            else:
+                db = DB(db.committed.copy(version=int(m.group(1))), None)
+            continue
+        if u == "PRAGMA USER_VERSION":
+            res._row = VTuple([db.visible().version])   # type: ignore[attr-defined]
+            continue
+        m = _re.fullmatch(r"CREATE TABLE IF NOT EXISTS (\w+)\s*\((.*)\)", stmt, _re.S | _re.I)
+        if m:
+            cols = [c.split()[0] for c in m.group(2).split(",") if c.split()]
+            SQL_LEAF_SCHEMA.setdefault(leaf, cols)
+            v = db.visible()
+            nv = v.copy(exists=True, nrows=lib._ite_val(to_z3(v.exists), v.nrows, 0) if is_z3(v.exists) else
+                        (v.nrows if v.exists else 0))
+            # DDL through execute() in legacy mode does not open a transaction either: it is committed at once
+            db = DB(nv, None) if db.pending is None else DB(db.committed, nv)
+            continue
+        m = _re.fullmatch(r"DELETE FROM (\w+)", stmt, _re.I)
+        if m:
+            v = _begin(db)
+            if not I.in_contract:
+                I.safety(st, v.exists, "sql-table-exists", node)
+            if script:
+                db = DB(v.copy(nrows=0), None)
+            else:
+                db = DB(db.committed, v.copy(nrows=0))
+            continue
+        m = _re.fullmatch(r"INSERT INTO (\w+)\s*\((.*?)\)\s*VALUES\s*\((.*)\)", stmt, _re.S | _re.I)
+        if m:
+            cols = [c.strip() for c in m.group(2).split(",")]
+            nq = m.group(3).count("?")
+            if not isinstance(params, VTuple) or len(params.items) != len(cols) or nq != len(cols):
+                I.safety(st, False, "sql-parameter-count", node)
+                raise Unsupported("INSERT parameter count")
+            v = _begin(db)
+            if not I.in_contract:
+                I.safety(st, v.exists, "sql-table-exists", node)
+            new = {c: _snapshot(I, st, p) for c, p in zip(cols, params.items)}
+            known = SCHEMA.get(leaf, {})
+            for c in cols:
+                if c not in known:
+                    I.safety(st, False, "sql-column-exists", node)
+            empty = to_z3(v.nrows) == 0
+            first = {}
+            for c in set(v.first) | set(new):
+                if c in new and c in v.first:
+                    first[c] = _row_ite(empty, new[c], v.first[c])
+                else:
+                    first[c] = new.get(c, v.first.get(c))
+            nv = v.copy(nrows=to_z3(v.nrows) + 1, first=first)
+            db = DB(nv, None) if script else DB(db.committed, nv)
+            continue
+        m = _re.fullmatch(r"SELECT (.*?) FROM (\w+)", stmt, _re.S | _re.I)
+        if m:
+            cols = [c.strip() for c in m.group(1).split(",")]
+            v = db.visible()
+            if not I.in_contract:
+                I.safety(st, v.exists, "sql-table-exists", node)
+            for c in cols:
+                if c not in v.first:
+                    I.safety(st, False, "sql-column-exists", node)
+                    raise Unsupported(f"unknown column {c}")
+            res._row = VTuple([v.first[c] for c in cols])   # type: ignore[attr-defined]
+            res._nrows = v.nrows   # type: ignore[attr-defined]
+            continue
+        raise Unsupported(f"SQL statement outside the recognised subset: {stmt[:60]}")
+    _set_db(I, st, leaf, db)
+    outs.append((st, res, None))
+    return outs
+
+
+def _row_ite(c, a, b):
+    if isinstance(a, Arr) and isinstance(b, Arr):
+        if isinstance(c, bool):
+            return a if c else b
+        return lib._ite_arr(c, a, b) if a.ndim == b.ndim else a
+    try:
+        return lib._ite_val(c, a, b)
+    except Exception:  # noqa: BLE001
+        return a
+
+
+def cur_fetchone(I, st, recv, args, kw, node):
+    row = getattr(recv, "_row", None)
+    if row is None:
+        raise Unsupported("fetchone() on a cursor without a result set")
+    n = getattr(recv, "_nrows", None)
+    if n is None:
+        return row
+    return Opt(to_z3(n) == 0, row)
+
+
+def conn_commit(I, st, recv, args, kw, node):
+    outs = [_fail(st)]
+    db = _db(I, st, recv._leaf)
+    if db.pending is not None:
+        _set_db(I, st, recv._leaf, DB(db.pending, None))
+    outs.append((st, NONE, None))
+    return outs
+
+
+def conn_rollback(I, st, recv, args, kw, node):
+    db = _db(I, st, recv._leaf)
+    if db.pending is not None:
+        _set_db(I, st, recv._leaf, DB(db.committed, None))
+    return NONE
+
+
+def conn_close(I, st, recv, args, kw, node):
+    db = _db(I, st, recv._leaf)
+    if db.pending is not None:
+        _set_db(I, st, recv._leaf, DB(db.committed, None))
+    return NONE
+
+
+# ---- byte-string codecs: loads(dumps(x)) is x ---------------------------------------------------------------------
+_PICKLED = z3.Function("pickled", ObjS, ObjS)
+_UNPICKLED = z3.Function("unpickled", ObjS, ObjS)
+_JSONED = z3.Function("json_text", ObjS, ObjS)
+_UNJSONED = z3.Function("json_value", ObjS, ObjS)
+
+
+def _codec(enc, dec, name):
+    def dumps(I, st, args, kw, node):
+        used(f"{name}.dumps / {name}.loads: loads(dumps(x)) hands x back (identity of the observable state)")
+        v = args[0]
+        if isinstance(v, Opaque):
+            t = enc(v.term)
+            st.fact(dec(t) == v.term)
+            o = Opaque(t, "bytes")
+            o._of = v   # type: ignore[attr-defined]
+            return o
+        o = Opaque(z3.Const(fresh_name(name + "_bytes"), ObjS), "bytes")
+        o._of = _snapshot(I, st, v)   # type: ignore[attr-defined]
+        return o
+
+    def loads(I, st, args, kw, node):
+        v = args[0]
+        if isinstance(v, Opaque) and getattr(v, "_of", None) is not None and not isinstance(v._of, Opaque):
+            return v._of
+        if isinstance(v, Opaque):
+            return Opaque(dec(v.term), getattr(getattr(v, "_of", None), "cls", None) or getattr(v, "_decoded_cls", None))
+        raise Unsupported(f"{name}.loads of a non-bytes value")
+    return dumps, loads
+
+
+_pd, _pl = _codec(_PICKLED, _UNPICKLED, "pickle")
+_jd, _jl = _codec(_JSONED, _UNJSONED, "json")
+
+
+def m_view(I, st, recv, args, kw, node):
+    used("ndarray.view(subclass): the same array")
+    return recv
+
+
+# ---- contract vocabulary ----------------------------------------------------------------------------------------
+_SQLF = "checkpoint.sqlite"
+
+
+def c_sql(I, st, a, k, n):
+    """disk_sql(column): the value of `column` in the first row of the COMMITTED table"""
+    col = _name_arg(a[0])
+    first = _db(I, st, _SQLF).committed.first
+    if col not in first:
+        raise Unsupported(f"disk_sql: unknown column {col}")
+    return first[col]
+
+
+lib.LIB.update({"sqlite3.connect": sqlite_connect, "pickle.dumps": _pd, "pickle.loads": _pl, "json.dumps": _jd,
+                "json.loads": _jl})
+lib.CONSTS["sqlite3.PARSE_DECLTYPES"] = 1
+lib.OPAQUE_METHODS.update({
+    "SqlConnection": {"cursor": conn_cursor, "commit": conn_commit, "rollback": conn_rollback, "close": conn_close},
+    "SqlCursor": {"execute": cur_execute,
+                  "executescript": lambda I, st, r, a, k, n: cur_execute(I, st, r, a, k, n, script=True),
+                  "fetchone": cur_fetchone},
+})
+lib.VALUE_METHODS.setdefault("view", m_view)
+lib.BUILTIN_FUNCS.update({
+    "disk_sql": c_sql,
+    "disk_sql_nrows": lambda I, st, a, k, n: _db(I, st, _SQLF).committed.nrows,
+    "disk_sql_version": lambda I, st, a, k, n: _db(I, st, _SQLF).committed.version,
+    "disk_sql_table": lambda I, st, a, k, n: _db(I, st, _SQLF).committed.exists,
+    "disk_sql_pending": lambda I, st, a, k, n: _db(I, st, _SQLF).pending is not None,
+})
